@@ -6,16 +6,19 @@ Import ListNotations.
 
 (* a tag row without hedId: the reader gives back name, the attributes the TSV writer keeps
    (inLibrary when stripping, hedId and annotationProperty never), and the description *)
-Lemma tsv_row_roundtrip strip_lib n a d :
+Lemma tsv_row_roundtrip (fixed5 strip_lib : bool) (n : str) (a : attrs) (d : option str) :
+  (if fixed5 then no_outer_ws n else true) = true ->
   attr_ok a = true -> dict_get s_hedId a = None -> tsv_desc_ok d = true ->
   memb ch_slash n = false -> endswith [ch_slash; ch_hash] n = false ->
   endswith [ch_hash] n = false -> endswith s_dash_hash n = false ->
-  tsv_read_row (tsv_write_tag_row strip_lib n a d)
+  tsv_read_row fixed5 (tsv_write_tag_row strip_lib n a d)
   = Ok (n, filter (fun kv => negb (attribute_disallowed_df strip_lib (fst kv))) a, d).
 Proof.
-  intros Ha Hh Hd Hs H1 H2 H3.
+  intros Hnw Ha Hh Hd Hs H1 H2 H3.
   unfold tsv_write_tag_row, tsv_read_row. cbn [r_hed_id r_name r_attributes r_description].
-  rewrite Hh, H2. unfold short_tag_name. rewrite H1, (last_component_noslash _ Hs), H3.
+  rewrite Hh, H2. unfold short_tag_name. rewrite H1, (last_component_noslash _ Hs).
+  assert (Hn : (if fixed5 then strip n else n) = n) by (destruct fixed5; [apply strip_id; exact Hnw | reflexivity]).
+  rewrite Hn, H3.
   rewrite (attr_roundtrip_exact _ a Ha). cbn [nonempty].
   change (fun kv : str * aval => match snd kv with AStr [] => false | _ => true end) with kept.
   rewrite (attr_ok_kept _ (attr_ok_filter _ _ Ha)).
@@ -29,21 +32,24 @@ Qed.
 (* repaired writer: whatever the entry holds, a row written without its properties is read back as a
    bare name, and once the loader has tagged it with the library it has exactly the shape
    HedSchemaUnitClassSection._check_if_duplicate accepts as a placeholder of the standard class *)
-Lemma tsv_stub_row_fixed strip_lib n a d library :
+Lemma tsv_stub_row_fixed (fixed5 strip_lib : bool) (n : str) (a : attrs) (d : option str) (library : str) :
+  (if fixed5 then no_outer_ws n else true) = true ->
   endswith s_dash_hash n = false ->
   exists a',
-    tsv_read_row (tsv_write_entry_row true strip_lib false n a d) = Ok (n, a', None)
+    tsv_read_row fixed5 (tsv_write_entry_row true strip_lib false n a d) = Ok (n, a', None)
     /\ unit_class_stub (tag_with_library library a') = true.
 Proof.
-  intro H. exists []. unfold tsv_write_entry_row, tsv_read_row.
-  cbn [r_hed_id r_name r_attributes r_description]. rewrite H. split; reflexivity.
+  intros Hw H. exists []. unfold tsv_write_entry_row, tsv_read_row.
+  cbn [r_hed_id r_name r_attributes r_description].
+  assert (Hn : (if fixed5 then strip n else n) = n) by (destruct fixed5; [apply strip_id; exact Hw | reflexivity]).
+  rewrite Hn, H. split; reflexivity.
 Qed.
 
 (* the unrepaired writer ignored include_props: a standard class with an attribute is not a stub *)
 Lemma tsv_stub_row_unfixed_refuted :
   exists n a library,
     attr_ok a = true /\ endswith s_dash_hash n = false /\
-    exists a', tsv_read_row (tsv_write_entry_row false true false n a None) = Ok (n, a', None)
+    exists a', tsv_read_row false (tsv_write_entry_row false true false n a None) = Ok (n, a', None)
                /\ unit_class_stub (tag_with_library library a') = false.
 Proof.
   exists [116%N], [([100%N], AStr [115%N])], [115%N].
